@@ -777,10 +777,10 @@ impl Arm for MgrArm {
     }
     fn runs(&self, tier: Tier) -> u64 {
         match (self.id, tier) {
-            ("C15", Tier::Quick) => 3000,
-            ("C15", Tier::Thorough) => 120_000,
-            (_, Tier::Quick) => 4000,
-            (_, Tier::Thorough) => 200_000,
+            ("C15", Tier::Quick) => 20_000,
+            ("C15", Tier::Thorough) => 400_000,
+            (_, Tier::Quick) => 40_000,
+            (_, Tier::Thorough) => 1_000_000,
         }
     }
     fn gen(&self, rng: &mut Rng, tier: Tier, _i: u64) -> Value {
